@@ -183,3 +183,21 @@ class Result:
 
 def canonical(case):
     return json.dumps(case, sort_keys=True)
+
+
+def import_closure(targets):
+    """Project-local (PxModel.* / PxProofs.*) import closure of the given Lean modules."""
+    seen, todo = [], list(targets)
+    while todo:
+        m = todo.pop()
+        if m in seen:
+            continue
+        f = os.path.join(LEAN, *m.split('.')) + '.lean'
+        if not os.path.exists(f):
+            continue
+        seen.append(m)
+        for line in open(f):
+            mm = re.match(r'\s*import\s+((?:PxModel|PxProofs)[\w.]*)', line)
+            if mm:
+                todo.append(mm.group(1))
+    return sorted(seen)
